@@ -365,7 +365,45 @@ func checkC18(p *core.Program, r *core.Report) {
 				}
 				nStored++
 				tested := false
+				emptyTestOn := func(bo *ssa.BinOp, subject ssa.Value) bool {
+					if bo.Op != token.EQL && bo.Op != token.NEQ {
+						return false
+					}
+					var other ssa.Value
+					if sc, ok := core.ConstString(bo.Y); ok && sc == "" {
+						other = bo.X
+					} else if sc, ok := core.ConstString(bo.X); ok && sc == "" {
+						other = bo.Y
+					}
+					if ld, ok := other.(*ssa.UnOp); ok {
+						if ia, ok := ld.X.(*ssa.IndexAddr); ok && ia.X == subject {
+							if k, isC := core.ConstInt(ia.Index); isC && k == 0 {
+								return true
+							}
+						}
+					}
+					return false
+				}
 				for _, ce := range core.MayConds(ret.Block()) {
+					// the test written as a boolean helper of the package that is handed the stored translation
+					cv := ce.Cond
+					if un, ok := cv.(*ssa.UnOp); ok && un.Op == token.NOT {
+						cv = un.X
+					}
+					if hc, ok := cv.(*ssa.Call); ok {
+						if h := hc.Call.StaticCallee(); h != nil && h.Blocks != nil && core.FuncPkgPath(h) == core.FuncPkgPath(f) {
+							for i, a := range hc.Call.Args {
+								if a != stored || i >= len(h.Params) {
+									continue
+								}
+								core.EachInstr(h, false, func(_ *ssa.Function, in ssa.Instruction) {
+									if hb, ok := in.(*ssa.BinOp); ok && emptyTestOn(hb, h.Params[i]) {
+										tested = true
+									}
+								})
+							}
+						}
+					}
 					bo, ok := ce.Cond.(*ssa.BinOp)
 					if !ok || (bo.Op != token.EQL && bo.Op != token.NEQ) {
 						continue
@@ -505,9 +543,9 @@ func checkC18(p *core.Program, r *core.Report) {
 		hasCurrent, hasTplLocale := false, false
 		for x := range core.BackSlice(locale, nil) {
 			if cc, ok := x.(*ssa.Call); ok {
-				if f := cc.Call.StaticCallee(); f != nil && f.Name() == "currentLocale" {
+				if la := c18LocaleLanguage(cc); la != nil {
 					// its language argument is evaluateMessage's language
-					if ex, ok := cc.Call.Args[1].(*ssa.Extract); ok && evalCall != nil && ex.Tuple == ssa.Value(evalCall) && ex.Index == 1 {
+					if ex, ok := la.(*ssa.Extract); ok && evalCall != nil && ex.Tuple == ssa.Value(evalCall) && ex.Index == 1 {
 						hasCurrent = true
 					}
 				}
@@ -557,15 +595,15 @@ func checkC18(p *core.Program, r *core.Report) {
 			r.Unknown("R4", key, p.Pos(c.Pos()), fmt.Sprintf("the message content derives from %d GetText lookups, expected one", len(lookups)))
 			continue
 		}
-		okLang, got := false, "no currentLocale call"
+		okLang, got := false, "no locale built from a language"
 		for x := range core.BackSlice(c.Call.Args[4], nil) {
 			if cc, ok := x.(*ssa.Call); ok {
-				if f := cc.Call.StaticCallee(); f != nil && f.Name() == "currentLocale" && len(cc.Call.Args) == 2 {
-					ex, isEx := cc.Call.Args[1].(*ssa.Extract)
+				if la := c18LocaleLanguage(cc); la != nil {
+					ex, isEx := la.(*ssa.Extract)
 					if isEx && ex.Tuple == ssa.Value(lookups[0]) && ex.Index == 1 {
 						okLang = true
 					} else {
-						got = "the language of another lookup (" + canonShort(cc.Call.Args[1]) + ")"
+						got = "the language of another lookup (" + canonShort(la) + ")"
 					}
 				}
 			}
@@ -809,4 +847,16 @@ func embedsNamed(n *types.Named, qual string) bool {
 		}
 	}
 	return false
+}
+
+// c18LocaleLanguage: the language a locale is built from — the second argument of the actions package's currentLocale
+// helper, or the first of i18n.NewLocale when the helper is written out. nil for other calls.
+func c18LocaleLanguage(c *ssa.Call) ssa.Value {
+	if f := c.Call.StaticCallee(); f != nil && f.Name() == "currentLocale" && len(c.Call.Args) == 2 {
+		return c.Call.Args[1]
+	}
+	if o := core.CalleeObj(&c.Call); o != nil && core.ObjName(o) == "github.com/nyaruka/gocommon/i18n.NewLocale" && len(c.Call.Args) == 2 {
+		return c.Call.Args[0]
+	}
+	return nil
 }
